@@ -91,7 +91,7 @@ def correspondence(ctx):
     # sessions on the real coordinator with the global defender on, several episodes per session: the history handed to the
     # defender must be exactly the actions answered in the current episode (monitor tagged C17 in coordcommon)
     from props import coordcommon as CC
-    CC.run_sessions(ctx, "C17", 84 if ctx.tier == "thorough" else 52,
+    CC.run_sessions(ctx, "C17", 86 if ctx.tier == "thorough" else 54,
                     lambda r: dict(n_events=r.choice([50, 80]), burst=0.1, fault=0.02, bad=0.02, resets=0.3),
                     lambda r: dict(defender=True, required=r.choice([1, 1, 2]), max_steps=r.choice([3, 6, None])))
     sess_cov = {k: ctx.coverage.get(k) for k in ("sessions", "labels_followed", "response_and_barrier_statistics")}
@@ -116,6 +116,50 @@ def correspondence(ctx):
     if thorough:
         blocks += [(GAME_TYPES, 5, 5, [5], False), (GAME_TYPES, 4, 4, [3, 4, 6, 8, 10, 12], False),
                    (ALL_TYPES, 3, 3, [1, 2, 3, 4, 5], True)]
+    # ---- long windows (directed, against the independent statement `spec_detect`): a run that reaches the consecutive threshold, or
+    # a repeat, inside a window so long that the type's share stays below its ratio threshold - at the end of the window, in its
+    # middle, at its start; and the same one short of the threshold
+    long_stats = {"cases": 0, "triggered": 0}
+    lsyms = make_symbols(ALL_TYPES, impl)
+    by_type = {}
+    for sy in lsyms:
+        by_type.setdefault(sy[0], []).append(sy)
+    filler = by_type["BlockIP"] + by_type["QuitGame"][:1]
+    for tw in (range(6, 31) if thorough else (6, 8, 9, 10, 11, 12, 14, 17, 20)):
+        for t in list(consec) + list(repeat):
+            k = consec.get(t, repeat.get(t))
+            for run in (k, k - 1):
+                for pos in ("end", "middle", "start"):
+                    if run < 1:
+                        continue
+                    body = [by_type[t][0]] * run if t in repeat else [by_type[t][i % 2] for i in range(run)]
+                    pad = [filler[i % len(filler)] for i in range(tw - run)]
+                    if pos == "end":
+                        ep = pad + body
+                    elif pos == "middle":
+                        ep = pad[:len(pad) // 2] + body[:-1] + pad[len(pad) // 2:] + body[-1:] if t in repeat else pad[:len(pad) // 2] + body + pad[len(pad) // 2:]
+                        if t in consec:
+                            ep = ep[:-1] + [by_type[t][0]] if ep[-1][0] != t else ep     # the evaluated action is of type t
+                    else:
+                        ep = body + pad
+                        ep = ep + [by_type[t][0]] if t in repeat else ep[:-1] + [by_type[t][0]]
+                    hist_syms, a_sym = ep[:-1], ep[-1]
+                    if a_sym[0] != t:
+                        continue
+                    cur["roll"] = 0.0
+                    try:
+                        got = defender.stochastic_with_threshold(a_sym[2], [x[3] for x in hist_syms], tw_size=tw)
+                    except Exception as e:
+                        got = f"exception {type(e).__name__}"
+                    exp = spec_detect(tables, tw, hist_syms, a_sym, 0.0)
+                    long_stats["cases"] += 1
+                    long_stats["triggered"] += 1 if exp else 0
+                    if got is not exp:
+                        ctx.violations.append({
+                            "key": f"defender {t} tw={tw} (long window)",
+                            "what": f"window of {tw}, {t} run/repeat of {run} at the {pos} of the window (share {sum(1 for x in ep[-tw:] if x[0] == t)}/{tw}): stochastic_with_threshold returned {got} with the draw 0, the property demands {exp}",
+                            "replay": {"kind": "defender_case", "history": [[x[0], x[1]] for x in hist_syms], "action": [a_sym[0], a_sym[1]], "tw": tw, "roll": 0.0, "expected": exp}})
+    ctx.coverage["long_window_cases"] = long_stats
     casedir = CK.fresh_casedir(ctx)
     paths = []
     meta = []
@@ -224,6 +268,7 @@ def correspondence(ctx):
         "detected_cases": detected, "implementation_exceptions": raised,
         "disagreements_checked": evaluations, "model_impl_disagreements": disagreements,
         "samples": samples,
+        "long_window_cases": long_stats,
     })
     ctx.assumptions += [
         "draws are scripted by replacing the module-level name `random` of global_defender.py",
